@@ -308,6 +308,39 @@ void HistSim::opFill(const Op& op, size_t ix) {
     JsonVariant dst = realVariant(*h);
     size_t added = 0;
     bool failedOnce = false;
+    if (kind == "carr") {
+      // copyArray(C array -> JsonArray) towards the limit: doubles take an element slot and an extension slot each;
+      // `true` must mean that every element arrived
+      std::vector<double> src(n);
+      for (size_t q = 0; q < n; q++)
+        src[q] = double(q) + 0.1;  // (not a float: a double that a float holds exactly is stored as float, in one slot)
+      size_t before = node->a.size();
+      bool ok = h->view == 'a' ? copyArray(src.data(), n, h->a) : copyArray(src.data(), n, dst);
+      JsonArrayConst got = realConst(*h).as<JsonArrayConst>();
+      size_t present = got.size();
+      bool complete = present == before + n;
+      for (size_t q = 0; q < n && complete; q++)
+        if (!got[before + q].is<double>() || got[before + q].as<double>() != (kUseDouble ? src[q] : double(float(src[q]))))
+          complete = false;
+      if (ok && !complete)
+        violate("C19:limit-unreported", "copyArray() returned true although not every element arrived (" +
+                                            std::to_string(present - before) + " of " + std::to_string(n) + " present, last ones null)");
+      if (!ok && !ds.doc->overflowed())
+        violate("C19:limit-unreported", "copyArray() returned false but overflowed() is false");
+      // the model follows what is there
+      for (size_t q = before; q < present; q++) {
+        Val nv = got[q].is<double>() ? Val::dbl(got[q].as<double>(), kUseDouble) : Val::null();
+        normalise(nv, kUseDouble);
+        nv.id = newId();
+        node->a.push_back(nv);
+      }
+      count("fill.copyarray");
+      if (!ok) {
+        count("fill.hit_limit");
+        ds.leaky = true;
+      }
+      n = 0;  // nothing left for the element-wise loop
+    }
     for (size_t q = 0; q < n; q++) {
       bool r;
       Val nv;
@@ -365,7 +398,8 @@ void HistSim::opFill(const Op& op, size_t ix) {
   } else {
     // model-only (generation): assume everything fits
     for (size_t q = 0; q < n; q++) {
-      Val nv = kind == "big" ? Val::integer(int64_t(0x100000000ll) + int64_t(q))
+      Val nv = kind == "carr" ? Val::dbl(double(q) + 0.1, true)
+               : kind == "big" ? Val::integer(int64_t(0x100000000ll) + int64_t(q))
                : kind == "str" ? Val::str("s" + std::to_string(q % 7))
                : kind == "same" ? Val::str("the same copied string")
                                 : Val::integer(int64_t(q));
@@ -1492,8 +1526,8 @@ Plan generate(const std::string& mode, uint64_t seed, uint64_t run) {
   }
   if (mode == "limit") {
     // reach the slot limit, then keep working at the edge
-    static const char* kinds[] = {"int", "big", "str"};
-    std::string kind = kinds[r.below(3)];
+    static const char* kinds[] = {"int", "big", "str", "carr"};
+    std::string kind = kinds[r.below(4)];
     Op prep = mkop("to");
     prep.setu("h", 0).set("kind", "a").set("via", 0);
     p.ops.push_back(prep);
@@ -1549,7 +1583,7 @@ void resolveFill(const Options& o, Op& op) {
     // as many elements as slot ids exist (255 / 65535), plus the plan's extra; for 4-byte ids
     // the limit is out of reach and a token amount is used instead
     size_t limit = size_t(verif::Inspector::NULLSLOT);
-    size_t per = op.str("kind") == "big" ? 2 : 1;
+    size_t per = op.str("kind") == "big" || op.str("kind") == "carr" ? 2 : 1;
     // (4-byte ids: 2300 slots are enough to move the pool table to the heap and grow it there twice)
     size_t n = limit > 70000 ? 2300 / per : limit / per + size_t(op.num("extra"));
     op.setu("n", n);
